@@ -27,8 +27,8 @@ def run(ctx):
     res.floor("R9.1", "Ok return in _do_parse", len(oks), 1)
     gu = dp.calls_to(r"Command::get_used_global_args$")
     pg = dp.calls_to(r"ArgMatcher::propagate_globals$")
-    res.floor("R9.1", "get_used_global_args call", len(gu), 1)
-    res.floor("R9.1", "propagate_globals call", len(pg), 1)
+    require(fx, res, "R9.1", "collects-used-globals", dp, r"Command::get_used_global_args$", len(gu), 1, "_do_parse no longer collects the global arguments of the used subcommand chain")
+    require(fx, res, "R9.1", "propagates-globals", dp, r"ArgMatcher::propagate_globals$", len(pg), 1, "_do_parse no longer propagates global argument values into the subcommand matches")
     if gu and pg and oks:
         res.check(not dp.must_pass([c.bb for c in gu], to=oks) and not dp.must_pass([c.bb for c in pg], to=oks) and dp.block_dominates(gu[0].bb, pg[0].bb), "R9.1", "globals-on-every-ok-path", dp.where(),
                   "every Ok path: get_used_global_args -> propagate_globals", "_do_parse can return Ok without collecting/propagating global argument values")
@@ -65,7 +65,7 @@ def run(ctx):
     res.check(len(rec) == 1 and expr(fg, rec[0].args[2]) == "vals_map", "R9.2", "recurses-with-same-map", fg.where(), "recursion into the subcommand carries the same value map", "fill_in_global_values no longer recurses with the shared map")
     # write-back loop: insert into self.matches.args for every entry of vals_map, no guard
     wb = [c for c in fg.calls_to(r"FlatMap<[^>]*>::insert$|FlatMap::insert$") if re.search(r"self\.matches\.args", expr(fg, c.args[0]))]
-    res.floor("R9.2", "write-back insert", len(wb), 1)
+    require(fx, res, "R9.2", "write-back-unconditional", fg, r"FlatMap<[^>]*>::insert$|FlatMap::insert$", len(wb), 1, "fill_in_global_values no longer writes the merged global values back into this level's matches")
     for c in wb:
         it = expr(fg, c.args[1])
         gl = [g for g in guard_strs(fg, c.bb) if not re.match(r"^V1:next\(", g)]
@@ -81,8 +81,8 @@ def run(ctx):
     bs = psb.calls_to(r"Command::_build_subcommand$")
     pn = psb.calls_to(r"Parser::new$")
     gm = psb.calls_to(r"Parser::get_matches_with$")
-    res.floor("R9.3", "_build_subcommand in parse_subcommand", len(bs), 1)
-    res.floor("R9.3", "Parser::new in parse_subcommand", len(pn), 1)
+    require(fx, res, "R9.3", "child-parser-on-built-subcommand", psb, r"Command::_build_subcommand$", len(bs), 1, "parse_subcommand no longer builds the subcommand it descends into")
+    require(fx, res, "R9.3", "child-parses", psb, r"Parser::new$", len(pn), 1, "parse_subcommand no longer creates a child parser")
     if bs and pn and gm:
         res.check(psb.block_dominates(bs[0].bb, pn[0].bb) and re.search(r"_build_subcommand\(", expr(psb, pn[0].args[0])) is not None, "R9.3", "child-parser-on-built-subcommand", pn[0].where(),
                   "child parser created for the freshly built subcommand", "child parser not created on the built subcommand: Parser::new(%s)" % expr(psb, pn[0].args[0])[:60])
